@@ -29,4 +29,19 @@ func init() {
 	register("C12", rulesC12,
 		"Static check of the classification logic. BaseFailurePolicy.IsFailure is evaluated as a decision table over {no conditions, some condition matches, err≠nil, errorsChecked} and compared with the documented rule; every condition registrar (HandleErrors/HandleErrorTypes/HandleResult/HandleIf and the abort/cancel counterparts) is evaluated with its loop unrolled, the closures it registered are then evaluated in the registrar's final abstract state (so each closure must compare against the argument it was created for, and HandleResult must ignore outcomes carrying an error), errorsChecked is set exactly by the error-handling registrars, AppliesToAny is true iff some predicate applied in order to (result, err) returned true, errorAs tests the error's own type first, follows Unwrap() error and searches every element of Unwrap() []error, the three failure-handling executors and the breaker's standalone RecordResult/RecordError classify through the policy's own BaseFailurePolicy, and every builder method forwards its arguments unchanged.",
 		"errors.Is, reflect.DeepEqual and the reflect package themselves (trusted); which concrete errors users pass")
+	register("C10", rulesC10,
+		"Static check of the fallback wrapper. The Apply closure is summarised path by path and compared with the specification: innerFn once, PostExecute classifies the inner result with the fallback's own IsFailure (slot resolution and shared BaseFailurePolicy checked), Success ⇒ the inner outcome is returned unchanged with no further effect, handled failure ⇒ cancellation test, the fallback function exactly once with a private copy carrying the failed result, a second cancellation test, the listener with the function's two values, and an output {Result, Error, Done=true, Success=SuccessAll=!IsFailure(output)}. The three builders yield exactly the configured result / error / function.",
+		"which outcomes inner compositions can produce (quantified over abstractly); user fallback functions")
+	register("C11", rulesC11,
+		"Static check of the cache executor. PreExecute and PostExecute (getCacheKey inlined) are evaluated as decision tables: the key is the string under CacheKey in the execution's context if present, else the configured key; the cache is read iff the key is non-empty; a hit returns {cached, nil error, Done/Success/SuccessAll} and, because the Apply slot is BaseExecutor.Apply whose summary is checked, neither innerFn nor PostExecute runs; a miss returns nil; Set(key, Result) happens iff ((no CacheIf conditions ∧ Error==nil) ∨ a condition matches) ∧ key≠\"\"; PostExecute returns its argument; hit/miss/cached listeners fire exactly in their case.",
+		"behaviour of the user's Cache implementation; histories of cache contents")
+	register("C06", rulesC06,
+		"Static check of the bulkhead. Capacity: the semaphore is make(chan struct{}, maxConcurrency), assigned only in Build. Ownership: every use of the semaphore in the program is a send inside one of the three acquire functions or the receive in ReleasePermit; it is never closed or handed out. Each acquire function is summarised over all select outcomes: success is reported exactly when one send on the semaphore was chosen, failures take nothing and report the reason of the case that ended the wait. The whole wrapper (executor slots inlined into BaseExecutor.Apply or whatever the Apply slot is) is summarised: one acquire with the execution's context and max wait; admitted ⇒ innerFn once then exactly one ReleasePermit and the inner result returned; refused ⇒ neither. Together with Go channel semantics this bounds permits by the capacity and pairs every acquire with one release on non-panicking paths.",
+		"panics inside the wrapped function (documented to abort the execution); losing hedge attempts that keep running after the bulkhead released")
+	register("C04", rulesC04,
+		"Static check of the breaker's admission gate and permit pairing. PreExecute: a refused permit yields a non-nil FailureResult(ErrOpen), which BaseExecutor.Apply (summary checked) returns before innerFn; the whole wrapper with the executor's slots inlined is summarised: refused ⇒ no invocation and nothing recorded, admitted ⇒ innerFn once and then exactly one record call (failure ⇔ IsFailure) under the breaker's mutex on every returning path; recordSuccess/recordFailure each record on the current state and then call checkThresholdAndReleasePermit once; the standalone Record*/TryAcquirePermit API is Lock; defer Unlock; one internal call; the half-open state takes a permit only under permittedExecutions>0 (else refuses with no effect) and gives exactly one back on every path of its threshold check; the open state admits nothing before clock−start ≥ delay and then half-opens and takes a trial permit in the same critical section; the breaker's lock discipline (guarded-by, deferred unlock) is checked.",
+		"the schedule clause about executions admitted before the breaker opened; numeric capacity; panics in the wrapped function")
+	register("C03", rulesC03,
+		"Static check of the breaker's machine skeleton and comparison logic. The state field is written only by Build and transitionTo; open/close/halfOpen are triggered exactly from the documented edges and map to transitionTo(state, exec, matching listener); transitionTo is summarised path by path (same state ⇒ nothing; else a fresh state object, the open state keeping the previous stats with delay = delay function value unless -1 else the configured delay, then specific and generic listeners once each with (old,new) after the state store); the closed, open and half-open threshold decisions are evaluated as decision tables over all orderings of the compared quantities (≥ versus > decided for every magnitude) against the documented tables; constructors give fresh stats and capacity-many trial permits; the counting ring keeps successes+failures=occupied, grows to size then evicts the head entry, head=(head+1)%size; timed records add one to bucket and summary; expired buckets are removed and reset pairwise; package circuitbreaker never reads the wall clock directly.",
+		"sliding-window contents over time (which results fall in the thresholding period), rate rounding, RemainingDelay values, metrics values, bucket arithmetic under clock jumps")
 }
